@@ -1619,9 +1619,58 @@ def _inv(m):
     return out
 
 
+def _singular_solve_2x2(a, b):
+    """contract of a dense solve on an IDENTICALLY singular 2x2 system (the shifted solves (A - e_i M) g = -b of the
+    eigen-backward): LAPACK returns some solution with an arbitrary, typically huge, component along the null vector.
+    Returned here: a particular solution plus tau * null vector with a fresh symbol tau per column, after the solver has
+    proved that the right-hand side is consistent.  Anything downstream must therefore hold for every tau."""
+    ex = Explorer.cur
+    if ex is None or a.shape != (2, 2):
+        return None
+    det = _det(a)
+    if not isinstance(det, S):
+        return None
+    from .core import fingerprint, fresh_real
+    concrete = not det.sym
+    if concrete:
+        if det.n != 0:
+            return None
+    else:
+        fp = fingerprint(det.n)
+        if fp is None or fp != 0 or not ex.identically_zero(det.n):
+            return None
+    r0 = a[0, 0] * a[0, 0] + a[0, 1] * a[0, 1]
+    # use the first row when it is non-zero (decided by the explorer), otherwise the second
+    row = 0 if bool(r0 != 0) else 1
+    p, q = a[row, 0], a[row, 1]
+    nrm = p * p + q * q
+    out = np.empty(b.shape, dtype=object)
+    other = 1 - row
+    for j in range(b.shape[1]):
+        y = b[row, j]
+        xp0, xp1 = y * p / nrm, y * q / nrm
+        # consistency of the other equation
+        lhs = a[other, 0] * xp0 + a[other, 1] * xp1
+        ok = (lhs == b[other, j])
+        if not isinstance(ok, (bool, np.bool_)):
+            if ex.prove(ok.e, kind="singular-consistency")[0] != "proved":
+                raise Inconclusive("singular solve with a right-hand side not provably in the range")
+        elif not ok:
+            raise Inconclusive("singular solve with an inconsistent right-hand side")
+        tau = S(0) if concrete else S(fresh_real("tau"))
+        out[0, j] = xp0 - tau * q
+        out[1, j] = xp1 + tau * p
+    ex.assumption_notes.append("singular 2x2 solve: particular solution + tau * null vector")
+    return out
+
+
 def _solve_mats(a, b):
     """solve a x = b for one (n,n) a and (n,k) b"""
     n = a.shape[0]
+    if n == 2:
+        r = _singular_solve_2x2(a, b)
+        if r is not None:
+            return r
     if n <= 3:
         return _matmul(_inv(a), b)
     return _gauss_solve(a, b)
